@@ -395,10 +395,10 @@ pub fn c08() -> Simple {
         id: "C08",
         decided_by: "inputs (type codes x flags x length forms x NULL bitmaps) + read chunking of the EXECUTE packet",
         rule_text: "one run = PREPARE declaring 0..300 parameters + 1..3 EXECUTEs with hand-encoded blocks: every type code the parser accepts with and without the unsigned bit, values at range edges, lenenc strings across size classes and in non-minimal length forms, DATE 0/4, DATETIME/TIMESTAMP 0/4/7/11, TIME 0/8/12 byte forms, NULL bitmaps none/all/alternating/random; oracle: the shim sees exactly the declared number of parameters, each with the bound type code and the exact value, and converting to the corresponding Rust type yields what the client encoded. Distinct = plan signature.",
-        quick: 200_000,
-        thorough: 6_000_000,
+        quick: 120_000,
+        thorough: 4_000_000,
         budget_q: 60,
-        budget_t: 600,
+        budget_t: 900,
         owns: &[
             "param-count",
             "param-type",
@@ -1241,7 +1241,7 @@ pub fn c16() -> Simple {
         quick: 300_000,
         thorough: 8_000_000,
         budget_q: 60,
-        budget_t: 600,
+        budget_t: 900,
         owns: &[
             "param-count",
             "param-type",
@@ -1445,10 +1445,10 @@ pub fn c17() -> Simple {
         id: "C17",
         decided_by: "histories (interleavings of long-data chunks and executions over statements x parameters) against the reference registry",
         rule_text: "one run = 1..3 statements (1..4 parameters) with 3..18 interleaved operations: SEND_LONG_DATA chunks (sizes 0..70000, also for indexes beyond the parameter count) and EXECUTEs, then two executions of every statement; oracle: at each EXECUTE the addressed parameters equal the in-order concatenation of the chunks for that (statement, parameter), other parameters keep their inline values, the next execution sees inline values again, other statements never see the data, no bytes are sent for SEND_LONG_DATA. Distinct = plan signature.",
-        quick: 300_000,
-        thorough: 8_000_000,
+        quick: 200_000,
+        thorough: 6_000_000,
         budget_q: 60,
-        budget_t: 600,
+        budget_t: 900,
         owns: &[
             "param-count",
             "param-type",
